@@ -13,6 +13,9 @@ import SoupVerif.Model.Context
 import SoupVerif.Model.Pretty
 import SoupVerif.Model.Cache
 import SoupVerif.Model.Memo
+import SoupVerif.Spec.RegexCost
+import SoupVerif.Model.Imports
+import SoupVerif.Generated.Imports
 open SoupVerif
 
 def wildStripImpl (s : Str) : Str :=
@@ -173,6 +176,26 @@ def handle (req : Sx) : Sx :=
             | .lang _ => .int (-1)
           .list [.list ((Memo.run c Memo.State.init qs).1.map enc), .list (qs.map (fun q => enc (Memo.pureAnswer c q)))]
     | _, _, _, _, _ => .int (-9)
+  -- regex engine service: (15 regexName s i) -> (() | (end)) (paths work)
+  | .list [.int 15, nm, t, i] =>
+    match nm.toStr?, t.toStr?, i.toNat? with
+    | some nm, some t, some i =>
+      let name := String.mk (nm.map Char.ofNat)
+      match Gen.allRegexes.find? (fun p => p.1 == name) with
+      | none => .int (-4)
+      | some (_, r) =>
+        let m := Rx.matchAt asciiEnv r t i
+        .list [Sx.ofOpt (fun (x : Nat × Caps) => Sx.ofNat x.1) m, Sx.ofNat (Rx.paths asciiEnv t r i), Sx.ofNat (Rx.work asciiEnv t r i)]
+    | _, _, _ => .int (-9)
+  -- import model: (16 (entry indices 0..7)) -> 1 if the sequence succeeds in a fresh interpreter, 0 otherwise
+  | .list [.int 16, .list es] =>
+    match es.mapM Sx.toNat? with
+    | some es =>
+      let eps := es.filterMap (fun i => Imports.entryPoints[i]?)
+      match Imports.run Gen.Imports.graph Gen.Imports.entryIds (Imports.Interp.empty Gen.Imports.width) eps with
+      | .ok st => .list [.int 1, Sx.ofBool st.allDone]
+      | .error _ => .list [.int 0]
+    | none => .int (-9)
   | _ => .list [.int (-10)]
 
 partial def loop (h : IO.FS.Stream) (out : IO.FS.Stream) : IO Unit := do
